@@ -141,17 +141,23 @@ func genC13(ctx *hx.Ctx, emit func(hx.Case)) {
 	}
 
 	// ---- block B: one parameter
-	names := map[string]string{"query": "q", "header": "X-P", "cookie": "ck"}
+	names := map[string]string{"query": "q", "header": "X-P", "cookie": "ck", "path": "id"}
 	valid := map[string]any{"integer": 5, "string": "abc", "boolean": true, "array:integer": 6, "untyped": 8}
 	typedD := map[string]any{"integer": 7, "string": "dd", "boolean": false, "array:integer": []any{1, 2}, "untyped": 9}
-	for _, loc := range []string{"query", "header", "cookie"} {
+	for _, loc := range []string{"query", "header", "cookie", "path"} {
 		for _, ty := range []string{"integer", "string", "boolean", "array:integer", "untyped"} {
+			if loc == "path" && ty == "array:integer" {
+				continue // path parameters of the fragment are scalars
+			}
 			for _, d := range []any{nil, typedD[ty], []any{3, 4}, "zz", []any{}} {
 				presences := [][]any{nil, {c13Lit(valid[ty])}, {c13Empty()}, {c13Lit("zz")}, {c13Lit(valid[ty]), c13Lit(valid[ty])},
 					{c13Csv(3, 4)}, {c13Empty(), c13Lit(valid[ty])}}
 				for _, raw := range presences {
 					for _, ex := range []any{nil, true, false} {
 						for fl := 0; fl < 8; fl++ {
+							if loc == "path" && len(raw) > 1 {
+								continue // PathParams is a map: one value per name
+							}
 							if fl&4 != 0 && (loc != "query" || raw == nil) {
 								continue // allowEmptyValue only matters for a present query parameter
 							}
@@ -165,6 +171,11 @@ func genC13(ctx *hx.Ctx, emit func(hx.Case)) {
 							}
 							emit(hx.Case{"opts": c13Opts(fl&2 != 0, false), "sec": c13NoSec, "stream": c13StreamOK, "body": nil, "ctype": "",
 								"bodySpec": c13NoBodySpec, "params": []any{p}, "store": store})
+							if fl&1 == 0 && ex == nil {
+								// the same case with the RequestValidationInput of the first validation used again
+								emit(hx.Case{"opts": c13Opts(fl&2 != 0, false), "sec": c13NoSec, "stream": c13StreamOK, "body": nil, "ctype": "",
+									"bodySpec": c13NoBodySpec, "params": []any{p}, "store": store, "reuseInput": true})
+							}
 						}
 					}
 				}
@@ -455,7 +466,7 @@ func genC13(ctx *hx.Ctx, emit func(hx.Case)) {
 			"stream": jm{"getBody": hx.Pick(r, []string{"nil", "ok", "ok", "fails"}), "cl": hx.Pick(r, []string{"len", "len", "unknown"})},
 			"body":   body, "ctype": ct,
 			"bodySpec": jm{"present": !r.Chance(5), "required": r.Chance(30), "schema": schema},
-			"params":   params, "store": store})
+			"params":   params, "store": store, "reuseInput": r.Chance(12)})
 	}
 }
 
@@ -580,6 +591,9 @@ func shrinkC13(c0 hx.Case) []hx.Case {
 			n["reqs"] = l
 			with("sec", n)
 		}
+	}
+	if jbool(c, "reuseInput") {
+		with("reuseInput", false)
 	}
 	opts := jmap(c["opts"])
 	for _, k := range []string{"multi", "roDisabled", "excludeBody"} {
